@@ -21,8 +21,10 @@ CONSTANTS NSlots,        \* number of element slots
           Mods,          \* modifiers: "none", "oos", "half"
           VGs, Topos,
           Cpls,          \* busbar-section arrangements (labels, CplOf): "c<h>" closed / "o<h>" open switch to host bus h
-          EgSets         \* ext_grid tables beyond the single one on bus 1 (labels, EgsOf): "g31" = rows on bus 3, bus 1;
+          EgSets,        \* ext_grid tables beyond the single one on bus 1 (labels, EgsOf): "g31" = rows on bus 3, bus 1;
                          \* an "x" after a bus = that row is out of service
+          StrideB, StrideC, Offset   \* thinning of the families B / C: one configuration in Stride (1 = all), the slice is
+                                     \* chosen by Offset (the harness derives it from the seed)
 VARIABLES cfg, plant, rows, stage, sup, smap, req
 vars == <<cfg, plant, rows, stage, sup, smap, req>>
 
@@ -59,6 +61,11 @@ NetOK(c) == /\ (c.topo # "radial" => c.vg = "Dyn")
             /\ (c.vg # "Dyn" \/ c.topo # "radial" => OnLv(c))
             /\ (c.topo \in {"cut", "toff", "notrafo"} => Plain(c))
             /\ (VgClass(c.vg) # "modelled" => \A i \in 2..NSlots : c.elems[i] = NoElem)
+\* thinning: a fixed arithmetic mix of the element codes, so that a slice is spread over kinds, buses, connection types
+\* and patterns (every configuration belongs to exactly one of the Stride slices)
+Mix(c) == LET a == Code(c.elems[1])  b == Code(c.elems[NSlots])
+          IN a * 31 + b * 17 + (a \div 9) * 7 + (b \div 18) * 13 + (a \div 54) * 5 + (b \div 108) * 3
+Slice(c, stride) == (Mix(c) + Offset) % stride = 0
 \* family A: one ext_grid on bus 1, no busbar section
 FamA == {c \in [vg : VGs, topo : Topos, cpl : {NoCpl}, egs : {OneEg}, elems : [1..NSlots -> ElemOptsOn(ElemBuses)]] :
             NetOK(c) /\ Canon(c) /\ ModOK(c)}
@@ -67,13 +74,13 @@ FamA == {c \in [vg : VGs, topo : Topos, cpl : {NoCpl}, egs : {OneEg}, elems : [1
 \* (two on the section, one on each fused bus, same or different connection type, ...); unmodified elements.
 OnSec(c) == \E i \in 1..NSlots : c.elems[i].kind # "none" /\ c.elems[i].bus = BusSec
 FamB == UNION {{c \in [vg : {"Dyn"}, topo : {"radial"}, cpl : {CplOf(l)}, egs : {OneEg},
-                       elems : [1..NSlots -> ElemOptsOn({CplOf(l).host, BusSec})]] : OnSec(c) /\ Canon(c) /\ Plain(c)}
+                       elems : [1..NSlots -> ElemOptsOn({CplOf(l).host, BusSec})]] : OnSec(c) /\ Canon(c) /\ Plain(c) /\ Slice(c, StrideB)}
               : l \in Cpls}
-\* family C: several ext_grid rows on the reference network with the feeder or the ring in service.  The ext_grids differ
-\* from the single one only at the slack buses, so the elements sit on the buses of the ext_grid rows and on the LV bus.
-FamC == UNION {{c \in [vg : {"Dyn"}, topo : Topos \cap {"radial", "ring"}, cpl : {NoCpl}, egs : {EgsOf(l)},
+\* family C: several ext_grid rows on the reference network (Dyn, radial feeder).  The ext_grids differ from the single
+\* one only at the slack buses, so the (unmodified) elements sit on the buses of the ext_grid rows and on the LV bus.
+FamC == UNION {{c \in [vg : {"Dyn"}, topo : {"radial"}, cpl : {NoCpl}, egs : {EgsOf(l)},
                        elems : [1..NSlots -> ElemOptsOn({EgsOf(l)[k].bus : k \in 1..Len(EgsOf(l))} \cup {TrafoLv})]] :
-                  Canon(c) /\ ModOK(c)}
+                  Canon(c) /\ Plain(c) /\ Slice(c, StrideC)}
               : l \in EgSets}
 Configs == FamA \cup FamB \cup FamC
 
